@@ -384,7 +384,7 @@ func c20Cases(env *core.Env, rng *rand.Rand) []core.Case {
 		}
 	}
 	// random catalogues
-	n := env.N(60, 1500)
+	n := env.N(200, 2000)
 	tags := []string{"v1.0.0", "v1.9.9", "v2.0.0", "v2.0.1", "v2.1.0", "v3.1.4", "v9.9.9", "v10.0.0", "nightly", "v2.2.0-rc1", "2.3.0", "v0.9.0"}
 	for i := 0; i < n; i++ {
 		c := &c20Case{Running: runnings[rng.Intn(len(runnings))], Name: "random"}
